@@ -22,10 +22,6 @@ def parallelReuse (g : Graph) (q : Query) : Bool :=
 def crossPattern (q : Query) : Bool :=
   (matchClauses q).any fun (_, ps) => (ps.filter (!·.steps.isEmpty)).length ≥ 2
 
-/-- C11-anon-rel-props-ignored: property map on a relationship pattern without a variable -/
-def anonRelProps (q : Query) : Bool :=
-  (matchClauses q).any fun (_, ps) => ps.any fun p => p.steps.any fun (rp, _) => rp.var.isNone && !rp.props.isEmpty
-
 def hasDup : Table → Bool
   | [] => false
   | r :: rest => rest.contains r || hasDup rest
@@ -59,7 +55,6 @@ def optionalDupOuter (A : Algebra) (env : Env) (q : Query) : Bool :=
 def triggers (A : Algebra) (env : Env) (q : Query) : List String :=
   (if parallelReuse env.g q then ["C11-parallel-rel-reuse"] else []) ++
   (if crossPattern q then ["C11-cross-pattern-rel-uniqueness"] else []) ++
-  (if anonRelProps q then ["C11-anon-rel-props-ignored"] else []) ++
   (if optionalDupOuter A env q then ["C11-optional-duplicate-outer-rows"] else [])
 
 end Nervus.Cy.Findings
